@@ -770,6 +770,21 @@ pub fn run(rep: &mut Report, tier: &str, seed: u64, shard: (u32, u32), replay: O
                 b[2..4].copy_from_slice(&l.to_be_bytes());
                 one(rep, &b, "length-abs", &mut rng);
             }
+            // lengthField boundary values of a (necessarily truncated) TLV, first in the suffix and
+            // after a complete TLV: the only correct answer is an error
+            for lf in [0x7ffeu16, 0x7fff, 0x8000, 0xfbfe, 0xfffa, 0xfffb, 0xfffc, 0xfffd, 0xfffe, 0xffff] {
+                for present in [0usize, 2, 6, 16] {
+                    for lead in [false, true] {
+                        let mut m = base.clone();
+                        m.tlvs = vec![];
+                        if lead {
+                            m.tlvs.push(Tlv::new(TLV_ORG_EXT_PROP, vec![7; 6]));
+                        }
+                        m.tlvs.push(Tlv { ty: 0x4000, value: vec![0x5a; present], len_override: Some(lf) });
+                        one(rep, &m.encode(), "tlv-length-boundary", &mut rng);
+                    }
+                }
+            }
             // TLV layouts: every type class x lengths 0/odd/even/huge/truncated, trailing 1..4 bytes
             for ty in [0x0000u16, 0x0001, 0x0003, 0x0008, 0x0009, 0x2000, 0x2004, 0x3fff, 0x4000, 0x4001, 0x7fff, 0x8000, 0x8008, 0xffff] {
                 for len in [0usize, 1, 2, 3, 4, 9, 10, 100, 101, 900] {
